@@ -15,25 +15,30 @@ import (
 )
 
 type blasMenus struct {
-	dims, band []int
-	ldDelta    []int
-	incs       []int
-	scalars    [][2]complex128
-	pairs      bool
+	dims, band   []int
+	dims1, dims2 []int // extents of Level 1 / Level 2 routines
+	ldDelta      []int
+	incs         []int
+	scalars      [][2]complex128
+	pairs        bool
 }
 
 func menusFor(g *vlib.G) blasMenus {
 	m := blasMenus{
 		dims:    []int{0, 1, 2, 3, 5},
+		dims1:   []int{0, 1, 2, 3, 5, 8, 9, 17},
+		dims2:   []int{0, 1, 2, 3, 5},
 		band:    []int{0, 1, 3},
 		ldDelta: []int{0, 2},
 		incs:    []int{-2, -1, 1, 2},
-		scalars: [][2]complex128{{2, 3}},
+		scalars: [][2]complex128{{2, 3}, {0, 3}},
 		pairs:   true,
 	}
 	if g.Thorough() {
 		m.band = []int{0, 1, 2, 3, 5}
-		m.scalars = [][2]complex128{{2, 3}, {0, 1}, {1, 0}}
+		m.dims1 = []int{0, 1, 2, 3, 5, 8, 9, 16, 17, 33, 64, 65}
+		m.dims2 = []int{0, 1, 2, 3, 5, 9}
+		m.scalars = [][2]complex128{{2, 3}, {0, 3}, {0, 1}, {1, 0}}
 	}
 	return m
 }
@@ -91,8 +96,13 @@ func genMethod(g *vlib.G, menus blasMenus, bm *blasMethod) {
 		}
 	}
 	dimMenu := func(tok string) []int {
-		if tok == "kl" || tok == "ku" || (tok == "k" && r.Level == 2) {
+		switch {
+		case tok == "kl" || tok == "ku" || (tok == "k" && r.Level == 2):
 			return menus.band
+		case r.Level == 1:
+			return menus.dims1
+		case r.Level == 2:
+			return menus.dims2
 		}
 		return menus.dims
 	}
@@ -160,9 +170,25 @@ func genMethod(g *vlib.G, menus blasMenus, bm *blasMethod) {
 func runBlasCase(t *vlib.T, bm *blasMethod, proto Call, menus blasMenus) {
 	r := bm.r
 	nops := len(r.Ops)
+	// regions sized for the largest operand of this case
+	big := proto
+	big.R = r
+	big.Ld, big.Inc = make([]int, nops), make([]int, nops)
+	for k := range r.Ops {
+		if r.Ops[k].Kind == Vector {
+			for _, inc := range menus.incs {
+				big.Inc[k] = imax(big.Inc[k], iabs(inc))
+			}
+		} else if r.Ops[k].Kind.HasLD() {
+			big.Ld[k] = MinLd(&big, k)
+			for _, d := range menus.ldDelta {
+				big.Ld[k] = imax(big.Ld[k], MinLd(&big, k)+d)
+			}
+		}
+	}
 	regs := make([]*region, nops)
 	for k := range regs {
-		regs[k] = newHeapRegion(bm.p)
+		regs[k] = newHeapRegionN(bm.p, need(&big, k))
 		regs[k].fill(3 * k)
 	}
 	var st blasStats
